@@ -301,13 +301,15 @@ class _:
     assumes = {"A-EQ": EQ_CONTRACT}
     locals = {"_added_blocks": "list:ref:Block", "duplicate_keys": "list:str"}
     loops = {1: dict(ADD_LOOPS[1], invariant=dict(ADD_LOOPS[1]["invariant"], **{
-        "arg-unchanged": "len(blks) == 1 and fresh(blks)",
+        "arg-unchanged": "len(blks) == 1 and fresh(blks) and same(blks[0], old(blocks))",
+        "parsed": "implies(old(parsed_ok(self)) and old(block_ok(self, blocks)), parsed_ok(self))",
         "index-values": "forall(k, 'str', k in self._strings_by_key, (old(k in self._strings_by_key) and same(self._strings_by_key[k], old(self._strings_by_key[k]))) or (_i >= 1 and same(self._strings_by_key[k], blks[0]))) and forall(k, 'str', k in self._entries_by_key, (old(k in self._entries_by_key) and same(self._entries_by_key[k], old(self._entries_by_key[k]))) or (_i >= 1 and same(self._entries_by_key[k], blks[0])))",
     })), 2: dict(ADD_LOOPS[2])}
     ensures = {
         "C08.add-position": "same(self._blocks, old(self._blocks)) and len(self._blocks) == old(len(self._blocks)) + 1 and forall(i, 0 <= i < old(len(self._blocks)), same(self._blocks[i], old(self._blocks[i])))",
         "C08.add-element": "same(self._blocks[old(len(self._blocks))], blocks) or (cls_is(self._blocks[old(len(self._blocks))], 'DuplicateBlockKeyBlock') and fresh(self._blocks[old(len(self._blocks))]) and same(as_ref(self._blocks[old(len(self._blocks))], 'ref:DuplicateBlockKeyBlock')._ignore_error_block, blocks))",
         "C03+C09.added-raw": "same(self._blocks[old(len(self._blocks))]._raw, blocks._raw) and same(self._blocks[old(len(self._blocks))]._start_line_in_file, blocks._start_line_in_file)",
+        "C01.parsed-kept": "implies(old(parsed_ok(self)) and old(block_ok(self, blocks)), parsed_ok(self))",
         "C01+C08.index-values": "forall(k, 'str', k in self._strings_by_key, (old(k in self._strings_by_key) and same(self._strings_by_key[k], old(self._strings_by_key[k]))) or same(self._strings_by_key[k], blocks)) and forall(k, 'str', k in self._entries_by_key, (old(k in self._entries_by_key) and same(self._entries_by_key[k], old(self._entries_by_key[k]))) or same(self._entries_by_key[k], blocks))",
         "C08.wf-held": "held_indexed(self)", "C08.wf-typed": "index_typed(self)", "C08.wf-once": "keyed_once(self)",
     }
@@ -352,10 +354,21 @@ class _:
 def parsed_ok(library):
     """what the splitter's output looks like, as far as the default middlewares care (true whatever aliases what)"""
     return (forall(p, 0 <= p < len(library._blocks), allocated(library._blocks[p])
-                   and implies(isinstance(library._blocks[p], Entry), not isnone(library._blocks[p]._parser_metadata) and allocated(as_ref(library._blocks[p], 'ref:Entry')._fields)
+                   and implies(isinstance(library._blocks[p], Entry), not isnone(library._blocks[p]._parser_metadata) and allocated(as_ref(library._blocks[p], 'ref:Entry')._fields) and not same(as_ref(library._blocks[p], 'ref:Entry')._fields, library._blocks)
                                and not same(library._blocks[p]._parser_metadata, library._strings_by_key) and not same(library._blocks[p]._parser_metadata, library._entries_by_key))
                    and implies(isinstance(library._blocks[p], String), not isnone(library._blocks[p]._parser_metadata) and isstr(as_ref(library._blocks[p], 'ref:String')._value)
                                and not same(library._blocks[p]._parser_metadata, library._strings_by_key) and not same(library._blocks[p]._parser_metadata, library._entries_by_key)))
             and forall((p, q), 0 <= p < len(library._blocks) and isinstance(library._blocks[p], Entry) and 0 <= q < len(as_ref(library._blocks[p], 'ref:Entry')._fields),
                        isstr(as_ref(library._blocks[p], 'ref:Entry')._fields[q]._value) and allocated(as_ref(library._blocks[p], 'ref:Entry')._fields[q]))
             and forall(k, 'str', k in library._strings_by_key, isstr(library._strings_by_key[k]._value) and allocated(library._strings_by_key[k])))
+
+
+@pred
+def block_ok(lib, b):
+    """the part of parsed_ok that speaks about one block"""
+    return (allocated(b)
+            and implies(isinstance(b, Entry), not isnone(b._parser_metadata) and allocated(as_ref(b, 'ref:Entry')._fields) and not same(as_ref(b, 'ref:Entry')._fields, lib._blocks)
+                        and not same(b._parser_metadata, lib._strings_by_key) and not same(b._parser_metadata, lib._entries_by_key)
+                        and forall(q, 0 <= q < len(as_ref(b, 'ref:Entry')._fields), isstr(as_ref(b, 'ref:Entry')._fields[q]._value) and allocated(as_ref(b, 'ref:Entry')._fields[q])))
+            and implies(isinstance(b, String), not isnone(b._parser_metadata) and isstr(as_ref(b, 'ref:String')._value)
+                        and not same(b._parser_metadata, lib._strings_by_key) and not same(b._parser_metadata, lib._entries_by_key)))
